@@ -18,6 +18,8 @@ m = {
         {"name": "hypothesis+p11worker", "path": "py/vlib, native/p11worker.cpp",
          "serves_properties": [c["property_id"] for c in CHECKS],
          "kind_free_text": "Hypothesis 6.168 generators and reference models in Python driving a process-isolated ASan/UBSan build of the library through a JSON-lines executor"},
+        {"name": "refworker", "path": "native/refworker.cpp, py/vlib/ref.py", "serves_properties": ["C10", "C13"],
+         "kind_free_text": "independent reference cryptography (Botan 2 + nettle, no OpenSSL) behind the same JSON-lines protocol; self test native/test_refworker.py (837 vectors)"},
     ],
     "checks": CHECKS,
     "not_applicable": NOT_APPLICABLE,
